@@ -226,3 +226,44 @@ def check_eq_sensitive(ck, eq_term, syms_a, syms_b, func, what="__eq__ depends o
         return False
     ck.proved(rule, func, what, f"{len(fs)} field symbols compared")
     return True
+
+
+# ---------------------------------------------------------------------------- refused mutation leaves no trace
+def check_refusal_atomic(ck, it, func, s0=0, r0=0, fresh_from=None, rule="G-REFUSE", what=None):
+    """A mutator that refuses its argument must not have changed the object first: for every explicit, uncaught raise
+    logged from index r0 on, no store logged from index s0 on (into an object that existed before the call) precedes it
+    on the same path.  Same path: the store's facts are all among the raise's facts (paths only ever add facts).
+    fresh_from: concrete objects with an id >= this number were created inside the call (use it.next_oid() before the
+    call) and are not observable after a refusal; lazily materialised parts of a symbolic receiver are."""
+    from . import decode_rules as _D
+    raises = [r for r in it.raises[r0:] if r["kind"] == "explicit" and not r["caught"]]
+    stores = it.stores[s0:]
+    n = 0
+    for r in raises:
+        if not _D.feasible(r["facts"]):
+            continue            # the refusal is unreachable (already excluded by an earlier validation)
+        rf = set(r["facts"])
+        first, last = {}, {}
+        for st in stores:
+            if st["seq"] > r["seq"]:
+                continue
+            if fresh_from is not None and isinstance(st["oid"], int) and st["oid"] >= fresh_from \
+                    and it.obj_info.get(st["oid"], {}).get("fresh", False):
+                continue        # an object built inside the call: unreachable once the call has raised
+            if not all(f in rf for f in st["facts"]):
+                continue
+            key = (st["oid"], st["attr"])
+            first.setdefault(key, st)
+            last[key] = st
+        # net effect at the raise: a store that a handler has undone again (old value restored) leaves no trace
+        early = [last[k] for k in last if not (first[k]["old"] is not None and first[k]["old"] == last[k]["val"])]
+        n += 1
+        cons = what or f"the refusal `{r['text'][:60]}` leaves the object as it was (nothing stays stored when the check fails)"
+        if early:
+            e = early[0]
+            ck.refuted(rule, func, cons, f"`{e['text'][:60]}` in {e['func']} has stored {show(e['val'])[:40]} into .{e['attr']} when "
+                       f"{r['exc'].split('.')[-1]} is raised at {r['where'].split('>')[-1]}; the refused value stays in the object",
+                       witness={"store": e["where"], "raise": r["where"]})
+        else:
+            ck.proved(rule, func, cons, f"{len(stores)} stores examined, none is left in place on the path of the raise")
+    return n
